@@ -198,6 +198,9 @@ func lookupResultChecked(c *Check, a *Anchors) {
 			if v == nil || v.Name() == "_" {
 				return true
 			}
+			if h := c.P.DeclOf(fn); h != nil && alwaysYieldsObject(h) {
+				return true // (pointer, bool) but not a lookup: the bool says which of two existing objects is returned (claimExecution)
+			}
 			l := fmt.Sprintf("lookup#%d", len(lookups))
 			labels[call] = l
 			lookups = append(lookups, lk{v, l})
@@ -2023,10 +2026,14 @@ func memoOnlySuccess(c *Check, a *Anchors) {
 			}
 		}
 	}
+	memo := memoOf(c.P)
 	label := func(g *FuncBody) Labeler {
 		return func(call *ast.CallExpr, obj types.Object) string {
 			if isFunc(obj, PkgExecext, "", "RunCommand") {
 				return "run"
+			}
+			if memo.accessor(g.Info(), call) == "store" {
+				return "memo.store"
 			}
 			for p := range producer {
 				if p != g && a.is(obj, p) {
@@ -2039,14 +2046,20 @@ func memoOnlySuccess(c *Check, a *Anchors) {
 	n := 0
 	for _, g := range group {
 		info := g.Info()
+		if g.Obj != nil && memo.Store[g.Obj] {
+			continue // the accessor that performs the store: judged at its call sites
+		}
 		hasStore := false
 		inspectBody(g.Body, func(nd ast.Node) bool {
 			if as, ok := nd.(*ast.AssignStmt); ok {
 				for _, l := range as.Lhs {
-					if ix, ok := ast.Unparen(l).(*ast.IndexExpr); ok && fieldSel(info, ix.X, PkgTask, "Compiler", "dynamicCache") {
+					if ix, ok := ast.Unparen(l).(*ast.IndexExpr); ok && (fieldSel(info, ix.X, PkgTask, "Compiler", "dynamicCache") || memo.IsMap(info, ix.X)) {
 						hasStore = true
 					}
 				}
+			}
+			if call, ok := nd.(*ast.CallExpr); ok && memo.accessor(info, call) == "store" {
+				hasStore = true
 			}
 			return true
 		})
@@ -2063,13 +2076,22 @@ func memoOnlySuccess(c *Check, a *Anchors) {
 			}
 			for _, l := range as.Lhs {
 				ix, ok := ast.Unparen(l).(*ast.IndexExpr)
-				if !ok || !fieldSel(info, ix.X, PkgTask, "Compiler", "dynamicCache") {
+				if !ok || !(fieldSel(info, ix.X, PkgTask, "Compiler", "dynamicCache") || memo.IsMap(info, ix.X)) {
 					continue
 				}
 				n++
 				c.Decide(st.Has("called:run") && st.Has("nil:run"), "memo-only-success", fmt.Sprintf("store#%d@%s", n, fnDisplay(g)), as.Pos(), "stored only after the command succeeded",
 					"the memo table is written on a path where the `sh:` command's error is not established nil (must-facts: "+st.String()+"): the output of a failed command is cached and returned, without an error, to the next evaluation of the same command text")
 			}
+		}
+		for call, l := range f.Labels {
+			if l != "memo.store" {
+				continue
+			}
+			st := f.At[call]
+			n++
+			c.Decide(st.Has("called:run") && st.Has("nil:run"), "memo-only-success", fmt.Sprintf("store#%d@%s", n, fnDisplay(g)), call.Pos(), "stored (through an accessor) only after the command succeeded",
+				"the memo table is written on a path where the `sh:` command's error is not established nil (must-facts: "+st.String()+"): the output of a failed command is cached and returned, without an error, to the next evaluation of the same command text")
 		}
 		if producer[g] {
 			// the helper's own discipline: a nil error only after the command succeeded
@@ -2269,7 +2291,7 @@ func deferIndexConsistent(c *Check, a *Anchors) {
 		if a.is(callee(info, call), a.CmdRunner) {
 			for _, arg := range call.Args {
 				if v := varOf(info, arg); v != nil {
-					if nt := namedOf(v.Type()); nt != nil && nt.Obj().Name() == "Task" && isParamOf(info, fb, v) {
+					if nt := namedOf(v.Type()); nt != nil && nt.Obj().Name() == "Task" && handedIn(info, fb, v, arg) {
 						fwd = v
 					}
 				}
@@ -2293,6 +2315,37 @@ func deferIndexConsistent(c *Check, a *Anchors) {
 		return true
 	})
 	c.Floor("defer-index-consistent", n, 1)
+}
+
+// handedIn: v (the variable of expression e) is something the function was handed rather than something it looked up: a
+// parameter, a field path of a parameter or of the receiver without a call in it (`d.t`), or a local whose only definition
+// is such a path (`e, t, call := d.e, d.t, d.call`).
+func handedIn(info *types.Info, fb *FuncBody, v *types.Var, e ast.Expr) bool {
+	if isParamOf(info, fb, v) {
+		return true
+	}
+	pathOfParam := func(x ast.Expr) bool {
+		x = ast.Unparen(x)
+		if _, ok := x.(*ast.SelectorExpr); !ok {
+			return false
+		}
+		hasCall := false
+		ast.Inspect(x, func(n ast.Node) bool {
+			if _, ok := n.(*ast.CallExpr); ok {
+				hasCall = true
+			}
+			return true
+		})
+		r := rootVar(info, x)
+		return !hasCall && r != nil && (isParamOf(info, fb, r) || isRecvOf(info, fb, r))
+	}
+	if v.IsField() {
+		return pathOfParam(e)
+	}
+	if def := singleDef(info, fb.Body, v); def != nil {
+		return pathOfParam(def)
+	}
+	return false
 }
 
 // fuzzyTrainedOnNames (C15): the suggestion model knows every name a task can be requested by.
@@ -4378,4 +4431,70 @@ func discardedErrorValueUsed(c *Check, a *Anchors, rule string) {
 	if n == 0 {
 		c.OK(rule, "no-discarded-error", 0, "no (value, error) call of a module function discards its error in the inspected packages")
 	}
+}
+
+// alwaysYieldsObject: every return of the declared function h yields, as its first result, a variable that is an object on
+// that path — defined as &T{…} / new(T), or read from a map with comma-ok and returned inside the branch that tested the ok
+// true. (A `return nil, false`, a delegated call, an index expression or a naked return make it a lookup that can miss.)
+func alwaysYieldsObject(h *FuncBody) bool {
+	if h.Decl == nil || h.Body == nil {
+		return false
+	}
+	info := h.Info()
+	pm := parentMap(h.Body)
+	nRet, all := 0, true
+	inspectBody(h.Body, func(n ast.Node) bool {
+		r, ok := n.(*ast.ReturnStmt)
+		if !ok {
+			return true
+		}
+		nRet++
+		if len(r.Results) != 2 {
+			all = false
+			return true
+		}
+		v := varOf(info, r.Results[0])
+		if v == nil || v.IsField() || isParamOf(info, h, v) {
+			all = false
+			return true
+		}
+		defs := defsOf(info, h.Body, v)
+		if len(defs) == 0 {
+			all = false
+		}
+		for _, d := range defs {
+			d = ast.Unparen(d)
+			switch x := d.(type) {
+			case *ast.UnaryExpr:
+				if _, isLit := ast.Unparen(x.X).(*ast.CompositeLit); x.Op == token.AND && isLit {
+					continue
+				}
+			case *ast.CallExpr:
+				if isBuiltin(info, x, "new") {
+					continue
+				}
+			case *ast.IndexExpr:
+				// `v, ok := m[k]` — fine when the return sits in the branch that tested ok
+				var okVar *types.Var
+				ast.Inspect(h.Body, func(m ast.Node) bool {
+					if as, isAs := m.(*ast.AssignStmt); isAs && len(as.Lhs) == 2 && len(as.Rhs) == 1 && ast.Unparen(as.Rhs[0]) == ast.Expr(x) {
+						okVar = varOf(info, as.Lhs[1])
+					}
+					return true
+				})
+				guarded := false
+				for p := pm[ast.Node(r)]; p != nil && okVar != nil; p = pm[p] {
+					if ifs, isIf := p.(*ast.IfStmt); isIf && within(r, ifs.Body) && varOf(info, ifs.Cond) == okVar {
+						guarded = true
+					}
+				}
+				if guarded {
+					continue
+				}
+			}
+			all = false
+		}
+		return true
+	})
+	return nRet > 0 && all
 }
